@@ -1,3 +1,4 @@
+import Cactus.Lemmas.Final
 import Cactus.Lemmas.Basic
 import Cactus.Lemmas.Table
 /-!
@@ -70,5 +71,27 @@ theorem C08_unadopt_counts (t : Table) (hw : t.WF) (k : Link) :
 example : (({ heap := [{ strong := .cnt 1, weak := 1, links := some [], value := none, freed := false },
                        { strong := .cnt 1, weak := 1, links := some [], value := none, freed := false }] } : State).adopt 0 1 false).tableOf 1
     = some [(⟨0, .bwd⟩, 1)] := by decide
+
+
+/-! ## The property over whole histories (no hypothesis on the history) -/
+
+/-- **C08.** In every reachable state of every history: every link table is well formed (distinct
+keys, positive counts), every Forward/Backward record names a *live* object (records involving an
+object disappear when it is destroyed), and every record is visible from both ends with the same
+multiplicity. -/
+theorem C08_bookkeeping {s : State} (h : Reachable s) (he : s.err = none) :
+    (∀ (o : Nat) (t : Table), s.tableOf o = some t →
+        t.WF ∧ ∀ e, e ∈ t → (e.1.kind = .loop → e.1.ptr = o) ∧ (e.1.kind ≠ .loop → s.isLive e.1.ptr = true))
+    ∧ (∀ a b, s.isLive a = true → s.isLive b = true → s.F a b = s.B b a) :=
+  (reachable_core h he).1.2.1
+
+/-- consequently the orphan decision taken at any later drop depends only on the currently recorded
+adoptions and the handle counts: the cycle map computed by the trace is determined by `F` and the
+visited set (not by the order in which the records were made) -/
+theorem C08_decision_from_records {s : State} (h : Reachable s) (he : s.err = none) {x : Nat}
+    (hx : s.isLive x = true) (k : Nat) :
+    (cycleRefs s x).cmap.get k = sumOver (cycleRefs s x).visited (fun n => s.F n k) :=
+  let hc := (reachable_core h he).1
+  cmap_get_eq s x hc.1 hc.2.1 hx k
 
 end Cactus
